@@ -174,6 +174,12 @@ def ps_case(draw):
         units.insert(draw(st.integers(0, len(units))), [draw(passive_channel_op(n))])
     elif extra == "msgate":
         units.insert(draw(st.integers(0, len(units))), [draw(msgate_op(n))])
+    if n >= 2 and draw(st.integers(0, 2)) == 0:
+        # a preparation in the MIDDLE of the program, on a mode that is strongly correlated with another one: every trace of the old state
+        # (also its correlations) has to go, else the covariance matrix is not a state (seeded change C07-F: Thermal kept them)
+        a, b = draw(st.permutations(list(range(n))))[:2]
+        k = draw(st.sampled_from(["Thermal", "Thermal", "Vacuum", "Coherent", "Squeezed", "DisplacedSqueezed"]))
+        units.insert(draw(st.integers(0, len(units))), [["S2gate", [draw(gen.fl(0.4, 0.9)), draw(gen.angle())], [a, b], {}], [k, draw(gen.op_params(k, "ps")), [a], {}]])
     # measurements: the conditional state left behind has to be physical too (post-selected and sampled outcomes)
     for _ in range(draw(st.sampled_from([0, 1, 1, 2, 2]))):
         units.insert(draw(st.integers(1, len(units))), draw(ps_measure_ops(n, hbar)))
